@@ -33,14 +33,34 @@ REVIEWED_IGNORED = {
 
 
 def display_spellings(F, enum):
+    """variant -> text printed by `impl Display for <enum>` of the rebuilder, in either form the impl may take: one arm per
+    variant that writes a literal, or a table of literals indexed by the discriminant (`TABLE[*self as usize]`, the
+    variants numbered in declaration order)."""
+    from rules.core import CannotAnalyse
     b = F.body("alpha::rebuilder::{Display for %s}::fmt" % enum)
-    m = hirq.find_match(b, min_arms=2)
+    variants = F.variants("alpha::common::" + enum)
     out = {}
-    for a in m["arms"]:
-        srcs = [x.get("src") for x in walk(a["body"]) if x.get("src", "").startswith("write!")]
-        mo = re.match(r'write!\(\s*f\s*,\s*"((?:[^"\\]|\\.)*)"\s*\)', srcs[0]) if srcs else None
-        out[hirq.pat_key(a["pat"]).split("::")[-1]] = mo.group(1) if mo else None
-    return b, out
+    ms = hirq.find_match(b, min_arms=2, all_matches=True)
+    if ms:
+        for a in ms[0]["arms"]:
+            lits = [x.get("v") for x in walk(a["body"]) if x.get("k") == "Lit" and x.get("lk") == "str"]
+            for alt in hirq.pat_alts(a["pat"]):
+                out[hirq.pat_key(alt).split("::")[-1]] = "".join(lits) if lits else None
+        return b, out
+    for n in walk(b["hir"]):
+        if n.get("k") == "Index":
+            base, idx = hirq.unwrap_trivial(n["e"]), hirq.unwrap_trivial(n["i"])
+            is_discr = idx.get("k") == "Cast" and any(x.get("k") == "Path" and x.get("res") == "self" for x in walk(idx))
+            if base.get("k") == "Path" and str(base.get("rk", "")).startswith("Const") and is_discr:
+                from rules.core import norm_path
+                cb = F.lib.bodies.get(norm_path(base["res"]))
+                arr = hirq.unwrap_trivial(cb["hir"]) if cb and "hir" in cb else {}
+                if arr.get("k") == "Array" and len(arr.get("a", [])) == len(variants):
+                    for v, e in zip(variants, arr["a"]):
+                        e = hirq.unwrap_trivial(e)
+                        out[v] = e.get("v") if e.get("k") == "Lit" and e.get("lk") == "str" else None
+                    return b, out
+    raise CannotAnalyse("Display for %s is neither a match over the variants nor a literal table indexed by the discriminant" % enum)
 
 
 def r1_spellings(run, F):
